@@ -1,4 +1,5 @@
 import PortusModel.Props.C12
+import PortusModel.Props.Tables
 #print axioms Portus.C12.get_field_spec
 #print axioms Portus.C12.get_field_no_panic
 #print axioms Portus.C12.getField_eq
@@ -6,3 +7,5 @@ import PortusModel.Props.C12
 #print axioms Portus.C12.value_is_own_slot
 #print axioms Portus.C12.declared_report_variable_reads_its_slot
 #print axioms Portus.C12.check_model
+#print axioms Portus.Tables.src_getFieldTable_eq
+#print axioms Portus.Tables.src_getField_eq
